@@ -38,6 +38,8 @@ class DecFloat:
 
     def __eq__(self, other):
         if not isinstance(other, DecFloat):
+            if isinstance(other, (int, float)):      # a changed formatter comparing / memoising by value: the real float
+                return self.__float__() == other
             return NotImplemented
         if self.ip != other.ip or self.fp != other.fp:
             return False
@@ -47,7 +49,10 @@ class DecFloat:
         r = self.__eq__(other)
         return r if r is NotImplemented else not r
 
-    __hash__ = None
+    def __hash__(self):
+        """used as a dict key / set member (a memoising formatter, since seed C19-i): realise, hash of the real float
+        (so that 7.0 meets 7 as it does natively)"""
+        return hash(self.__float__())
 
     def __str__(self):
         return ("-" if self.neg else "") + (self.ip if len(self.ip) else "0") + "." + (self.fp if len(self.fp) else "0")
